@@ -188,6 +188,17 @@ ArgparseExit(code) ==
   /\ exitCat' = IF code = 2 THEN "COMMAND_LINE_ERROR" ELSE "SUCCESS"
   /\ UNCHANGED <<runV, fileV, setV, nfail, fatal, temps>>
 
+(* after the run the harness compares every file with its content before the run:
+   S = files whose bytes differ, T = number of files that appeared and were not removed *)
+ObservedDisk(S, T) ==
+  /\ pc = "exited"
+  /\ announced \subseteq S                       \* announced => changed
+  /\ ~Abnormal => S = announced                  \* changed => announced (a run that completed normally)
+  /\ S \subseteq changed                         \* bytes change only through an observed write-back
+  /\ mode # "fix" => S = {}                      \* scan, scan-stdin and listing are read-only
+  /\ T = 0                                       \* nothing is created or left behind
+  /\ UNCHANGED vars
+
 (* ------------------------------- invariants ------------------------------------------ *)
 TypeOK ==
   /\ pc \in {"init", "files", "exited"} /\ mode \in Modes /\ scheme \in Schemes
